@@ -199,7 +199,7 @@ struct Runner {
                         it2.push_back(0);
                     }
                 } else {
-                    if (x.Key.Length() != 0 || x.Next != 0) lv.push_back(777781);
+                    if (x.Key.Length() != 0) lv.push_back(777781);
                     if constexpr (HasVal) {
                         if (Codec::read(x.Value) != 0) lv.push_back(777782);
                     }
